@@ -141,11 +141,11 @@ Proof. apply base64bytes_value_stable. Qed.
 Theorem code_points_at_most_bytes s : rune_count s <= len s.
 Proof. apply rune_count_le. Qed.
 
-(* CheckFields: more than 65 536 bytes of JSON or more than 255 code points of type / state key
-   is refused, not persistable, in every version and whatever the other fields are *)
-Theorem check_fields_hard_limits v json_len type sk sender :
-  65536 < json_len \/ 255 < rune_count type \/ opt_over rune_count sk ->
-  check_fields v false json_len type sk sender = VTooLarge false.
+(* CheckFields: more than 65 536 bytes of JSON or more than 255 code points of type, state key
+   or sender is refused, not persistable, in every version and whatever the other fields are *)
+Theorem check_fields_hard_limits v json_len type sk sender room :
+  65536 < json_len \/ 255 < rune_count type \/ opt_over rune_count sk \/ 255 < rune_count sender ->
+  check_fields v false json_len type sk sender room = VTooLarge false.
 Proof. apply fields_hard_limit. Qed.
 
 (* checkID (sender, room ID): more than 255 code points refused, more than 255 bytes only
@@ -160,21 +160,26 @@ Proof.
   repeat split; [apply id_length_refused|apply id_length_persistable|apply id_length_ok].
 Qed.
 
-(* the whole table for an event whose struct checks the room ID with checkID (eventV1, eventV2),
+(* the whole table for an event of any of the three structs (eventV1 / eventV2 check the room ID
+   with checkID; eventV3 demands its sigil, the create event - whose room ID is derived - apart),
    in a version of the lenient set other than the pseudo-ID version, with a sender and room ID of
    the right shape; the event is otherwise valid, in particular its room ID is one the room-ID
-   parser accepts (since the repair of F9 an event with any other room ID is refused) *)
+   parser accepts (since the repair of F9 an event with any other room ID is refused).
+   Refused: some limit that is not lenient is exceeded, whatever else is merely too many bytes
+   (before the repair of F43 this needed the extra premise that no other field exceeded only its
+   byte limit). Persistable: no such limit is exceeded and some byte limit is. *)
 Theorem check_fields_table struct v json_len type sk sender room :
-  (struct =? 3) = false -> lenient_version v = true -> bytes_eqb v pseudo_id_version = false ->
-  shaped 64 sender -> shaped 33 room -> room_valid room = true ->
+  ((struct =? 3) = false /\ shaped 33 room
+   \/ (struct =? 3) = true /\ is_create_v3 type sk = false /\ exists r, room = 33 :: r) ->
+  lenient_version v = true -> bytes_eqb v pseudo_id_version = false ->
+  shaped 64 sender -> room_valid room = true ->
   let verdict := event_checks struct v false json_len type sk sender room in
-  (hard_limit_exceeded json_len type sk sender room ->
-   no_byte_only_excess type sk sender room -> verdict = VTooLarge false)
+  (hard_limit_exceeded json_len type sk sender room -> verdict = VTooLarge false)
   /\ (no_hard_limit_exceeded json_len type sk sender room ->
       byte_limit_exceeded type sk sender room -> verdict = VTooLarge true)
   /\ (all_within_limits json_len type sk sender room -> verdict = VOk).
 Proof.
-  intros H1 H2 H3 H4 H5 H6. repeat split.
+  intros H1 H2 H3 H4 H5. repeat split.
   - apply table_refused; assumption.
   - apply table_persistable; assumption.
   - apply table_ok; assumption.
@@ -242,7 +247,13 @@ Example table_concrete :
   /\ event_checks 2 (bs "10") false 500 (concat (repeat [195; 169] 128)) None (bs "@u:x") (bs "!r:x")
      = VTooLarge true
   /\ event_checks 2 (bs "10") false 65536 (repeat 97 255) None (bs "@u:x") (bs "!r:x") = VOk
-  /\ event_checks 2 (bs "10") false 65537 (repeat 97 255) None (bs "@u:x") (bs "!r:x") = VTooLarge false.
+  /\ event_checks 2 (bs "10") false 65537 (repeat 97 255) None (bs "@u:x") (bs "!r:x") = VTooLarge false
+  (* type over the byte limit only, sender over the code-point limit: refused (F43) *)
+  /\ event_checks 2 (bs "10") false 500 (concat (repeat [195; 169] 128)) None
+       (64 :: repeat 97 300 ++ bs ":x") (bs "!r:x") = VTooLarge false
+  (* room ID over the byte limit only: persistable, also in an eventV3 (F42) *)
+  /\ event_checks 3 (bs "12") false 500 (bs "m.x") None (bs "@u:x")
+       (33 :: concat (repeat [195; 169] 130) ++ bs ":x") = VTooLarge true.
 Proof. repeat split; vm_compute; reflexivity. Qed.
 
 Example version_table_concrete :
